@@ -533,7 +533,7 @@ def c20_init(stream, scen=None):
     """family sysi (one system; every `counts` comes after its first simulate): every registered asset
     has been initialised exactly once -- also the assets constructed while the others were being
     initialised, and the ones constructed later."""
-    if not scen or not any(l[:3] in (['S', 'asset', 'maker'], ['S', 'asset', 'nester']) for l in scen):
+    if not scen or not any(l[:3] in (['S', 'asset', 'maker'], ['S', 'asset', 'nester']) or l[:2] == ['S', 'newrm'] for l in scen):
         return []
     if any(l.startswith('sres err') for l in stream):
         return []          # outside the family's shape
@@ -968,6 +968,9 @@ def c15(stream, scen=None):
         parts_now = parts_of(f.state) if f.now is not None else {}
         for rec in f.recs:
             t = rec.split()
+            if 'not-stored(' in t[-1]:
+                # the runner watches every add_datapoint call: exactly one record per occurrence
+                wit.append(f'frame {i} (t={f.now}): a datapoint was handed to add_datapoint but its series did not grow by exactly this one entry: {rec}')
             if t[0] == 'level':
                 last_level[int(t[1])] = int(t[3])
                 if f.now is not None and int(t[2]) != f.now:
